@@ -203,6 +203,8 @@ def parse_spec(text):
             raise InjectError('spec line %d: expected @directive, got %r' % (i+1, s))
         parts = s.split()
         d = parts[0]
+        if d == '@import':
+            items.append(('import', parts[1], parts[3])); i += 1; continue
         if d == '@loops':
             items.append(('loops', parts[1], int(parts[2]))); i += 1; continue
         if d == '@unstatic':
@@ -262,13 +264,24 @@ def check_ghost(body, where):
 # ----------------------------------------------------------------------------
 # injection
 # ----------------------------------------------------------------------------
-def inject(src, spec_text, preamble_inc=None, trailer_inc=None):
+def extract_struct(text, name):
+    toks = tokenize(text)
+    for k in range(len(toks) - 2):
+        if toks[k][1] == 'struct' and toks[k+1][1] == name and toks[k+2][1] == '{':
+            rb = match_forward(toks, k + 2, '{', '}')
+            if toks[rb+1][1] != ';':
+                continue
+            return text[toks[k][2]:toks[rb+1][2] + 1]
+    raise InjectError('anchor miss: struct %s not found for @import' % name)
+
+def inject(src, spec_text, preamble_inc=None, trailer_inc=None, repo=None):
     toks = tokenize(src)
     funcs = find_functions(toks)
     items = parse_spec(spec_text)
     ins = []      # (pos, order, text)
     dele = []     # (start, end) ranges to delete (only `static`/`inline` keywords, recorded)
     seen = set()
+    imports = []
     loops_cache = {}
     def tok_end(k):
         return toks[k][2] + len(toks[k][1])
@@ -287,7 +300,11 @@ def inject(src, spec_text, preamble_inc=None, trailer_inc=None):
         if kind in ('function', 'loop', 'before') and key in seen:
             raise InjectError('duplicate spec item %s %s' % key)
         seen.add(key)
-        if kind == 'loops':
+        if kind == 'import':
+            import os
+            other = open(os.path.join(repo or '/repo', target)).read()
+            imports.append('/* imported mechanically from %s */\n%s\n' % (target, extract_struct(other, body)))
+        elif kind == 'loops':
             n = len(get_loops(target))
             if n != body:
                 raise InjectError('must-fire: %s has %d loops, spec recorded %d' % (target, n, body))
@@ -379,7 +396,9 @@ def inject(src, spec_text, preamble_inc=None, trailer_inc=None):
                     else:
                         raise InjectError('bad ghost anchor %s' % target)
     if preamble_inc:
-        ins.append((0, -1, '#include "%s"\n' % preamble_inc))
+        ins.append((0, -1, '#include "%s"\n' % preamble_inc + ''.join(imports)))
+    elif imports:
+        ins.append((0, -1, ''.join(imports)))
     if trailer_inc:
         ins.append((len(src), 10**6, '\n#include "%s"\n' % trailer_inc))
     # build output
